@@ -249,6 +249,30 @@ func init() {
 					pair(c, id, []File{{"c.yaml", cfg.YAML()}}, false, P(true))
 				})
 			}
+			// several services, each with a type of one of two packages (or none) and with or without a getter, in every
+			// combination and hence in every name order of "typed with getter" and "typed without getter" of one package
+			{
+				types := []*string{nil, P("*pk.Obj"), P("*pk2.Obj")}
+				ctors := []string{"pk.New", "pk.New", "pk2.New"}
+				for v := 0; v < 6*6*6; v++ {
+					v := v
+					id := fmt.Sprintf("types-and-getters/%03d", v)
+					w.Case(id, func(c *C) {
+						cfg := &Cfg{Meta: stdMeta()}
+						x := v
+						for i, n := range []string{"sa", "sb", "sc"} {
+							t, g := x%3, (x/3)%2
+							x /= 6
+							sv := Service{Name: n, Constructor: P(ctors[t]), Type: types[t]}
+							if g == 1 {
+								sv.Getter = P(fmt.Sprintf("Get%d", i))
+							}
+							cfg.Services = append(cfg.Services, sv)
+						}
+						pair(c, id, []File{{"c.yaml", cfg.YAML()}}, false, P(true))
+					})
+				}
+			}
 			// boundary strings (empty, blank, a digit, a separator) in every grammar position of C11: whatever the verdict
 			// is, it is the same in both modes
 			for _, p := range c11positions() {
